@@ -393,3 +393,37 @@ Section RUNH.
     - cbn [h_stop]. unfold initial_allocation_h in Ei. rewrite (initial_shared_err _ _ _ _ _ Ei Hv). exact I.
   Qed.
 End RUNH.
+
+(* ================================================================ a finished count fills exactly the seats *)
+(* the elect-all-remaining shortcut does not look at the transferer *)
+Lemma next_count_h_all_eq cf a n total seats caps o el : next_count_h cf a n total seats caps o = HC_all el ->
+  next_count cf a n total seats caps = CR_all el.
+Proof.
+  unfold next_count_h, next_count. cbv zeta.
+  match goal with |- context [if ?c then HC_all ?av else _] => destruct c end; [intros [= <-]; reflexivity|].
+  intros H. exfalso. revert H.
+  repeat (match goal with
+          | |- context [match ?x with _ => _ end] => destruct x
+          | |- lift_h ?r _ = _ -> _ => destruct r; simpl
+          end); discriminate.
+Qed.
+
+Theorem run_h_complete cf fuel : forall a n total seats caps o acc a0,
+  h_stop (run_h cf fuel a n total seats caps o acc a0) = None ->
+  zsum (map snd (h_seats (run_h cf fuel a n total seats caps o acc a0))) = n.
+Proof.
+  induction fuel as [|f IH]; intros a n total seats caps o acc a0; cbn [run_h].
+  - destruct (zsum (map snd seats) =? n)%Z eqn:E; cbn [h_stop h_seats]; [intros _; apply Z.eqb_eq, E|discriminate].
+  - destruct (zsum (map snd seats) =? n)%Z eqn:E; cbn [h_stop h_seats]; [intros _; apply Z.eqb_eq, E|].
+    destruct (next_count_h cf a n total seats caps o) as [el|a' el o'|s] eqn:En; cbn [h_stop h_seats]; [| |discriminate].
+    + intros _. rewrite add_seats_sum, (next_count_all _ _ _ _ _ _ _ (next_count_h_all_eq _ _ _ _ _ _ _ _ En)). lia.
+    + destruct el as [|e el'].
+      * destruct (alloc_eqb a' a); cbn [h_stop]; [discriminate|]. apply IH.
+      * apply IH.
+Qed.
+
+Theorem stv_h_complete cf votes n prev caps orc : h_stop (stv_h cf votes n prev caps orc) = None ->
+  zsum (map snd (h_seats (stv_h cf votes n prev caps orc))) = n.
+Proof.
+  unfold stv_h. destruct (initial_allocation_h votes orc) as [a o|s]; [apply run_h_complete|discriminate].
+Qed.
